@@ -40,6 +40,19 @@ Definition ks_size (S : KSys) : nat := ks_n S + ks_u S + ks_p S.   (* krige_size
 Definition cond_err_vec (n : nat) (scalar : bool) (e : list T) : list T :=
   if scalar then repeat (aget z e 0) n else e.
 
+(* the cond_err setter with its guard (all three routes -- constructor, set_condition(cond_err=...), the property
+   setter -- end here): "nugget" (None) is always accepted and means the model nugget at every point; an explicit
+   value (scalar flag, values) is REJECTED (ValueError = None) when the interpolator is exact, otherwise a single value
+   is broadcast and a vector must have one entry per conditioning point *)
+Definition set_cond_err (exact : bool) (n : nat) (nugget : T) (ce : option (bool * list T)) : option (list T) :=
+  match ce with
+  | None => Some (repeat nugget n)
+  | Some (scalar, v) =>
+      if exact then None
+      else if scalar then Some (repeat (aget z v 0) n)
+      else if length v =? n then Some v else None
+  end.
+
 Definition kmat_entry (S : KSys) (i j : nat) : T :=
   let n := ks_n S in let u := ks_u S in
   if i <? n then
